@@ -44,9 +44,7 @@ type Route struct {
 }
 
 func (r *Route) addTarget(service string, targetURL *url.URL, fixedWeight float64, tags []string, opts map[string]string) {
-	if fixedWeight < 0 {
-		fixedWeight = 0
-	}
+	fixedWeight = usableWeight(fixedWeight)
 
 	// de-dup existing target
 	for _, t := range r.Targets {
@@ -140,13 +138,31 @@ func (r *Route) setWeight(service string, weight float64, tags []string) int {
 	// states to assign only that percentage
 	// of traffic to all matching routes combined.
 	n := loop(0)
-	w := weight / float64(n)
+	w := usableWeight(weight / float64(n))
 	loop(w)
 
 	if n > 0 {
 		r.weighTargets()
 	}
 	return n
+}
+
+// minWeight and maxWeight bound the fixed weights which take part in the
+// weight distribution.
+const (
+	minWeight = 1e-9
+	maxWeight = 1e9
+)
+
+// usableWeight returns w if it can be used as a fixed weight and 0 (dynamic
+// weight) otherwise. NaN, infinite, negative, and absurdly small or large
+// values would make the normalization in weighTargets overflow and either
+// panic or leave the route without any usable target.
+func usableWeight(w float64) float64 {
+	if !(w >= minWeight && w <= maxWeight) {
+		return 0
+	}
+	return w
 }
 
 func contains(src, dst []string) bool {
